@@ -342,7 +342,7 @@ pub fn run(ctx: &Ctx, rep: &mut Report) {
                     if k + r <= 6 || ctx.thorough() {
                         specs.push(GroupSpec { eng, codec, k, r, data: "dense:66".into(), soil: 0 });
                     }
-                    if k + r <= 7 || ctx.thorough() {
+                    if k + r <= 7 || ctx.thorough() && k + r <= 9 && eng != "naive" && eng != "neonemu" {
                         // particular symbol values (zero shard, equal shards, 0xFFFF, equal halves, 0/1/0xFFFF cycles)
                         specs.push(GroupSpec { eng, codec, k, r, data: "special:130".into(), soil });
                     }
@@ -468,7 +468,7 @@ pub fn run(ctx: &Ctx, rep: &mut Report) {
 
     // ---------------- mid-size configurations: complete boundary-relative loss families
     let mid: Vec<(usize, usize)> = if ctx.thorough() {
-        vec![(40, 24), (24, 40), (70, 70), (100, 36), (36, 100), (33, 31), (65, 65), (130, 30), (30, 130), (96, 64), (200, 56)]
+        vec![(40, 24), (24, 40), (70, 70), (100, 36), (36, 100), (33, 31), (65, 65), (96, 64)]
     } else {
         vec![(40, 24), (24, 40), (70, 70), (100, 36), (36, 100), (33, 31)]
     };
